@@ -16,6 +16,7 @@
 (* Checked for every argument of the pool:                                 *)
 (*   Terminates   the series loop stops within NTERMS terms                *)
 (*   Increasing   partial sums never decrease (all terms are positive)     *)
+(*   SeriesOK     the trimmed series sum is right to T + 4 digits           *)
 (*   ResultOK     the result satisfies the relation the trace specification*)
 (*                applies to the crate: positive, within one unit of the   *)
 (*                T-th digit of the interval enclosure of e^x              *)
@@ -74,8 +75,10 @@ Terminates == nn <= NTERMS
 Increasing == [][pc = "loop" /\ pc' = "loop" => DCmp(result, result') <= 0]_vars
 PositiveSums == pc = "loop" => result.s = 1 /\ term.s = 1
 ResultOK == pc = "done" => ExpValOK(x, T, out) = OK
-\* the trimmed series sum for |x| is itself within one unit of ITS last (T+5-th) digit
-SeriesOK == pc \in {"invert"} \/ (pc = "trim" /\ x.s > 0) => ExpValOK(A, T + 5, out) = OK
+\* the trimmed series sum for |x| is accurate to its last digit but one: the loop stops as soon as a term no longer
+\* changes the trimmed sum, and the terms still to come (a geometric tail of ratio |x|/n) may add up to a few units of
+\* the (T+5)-th digit - TLC shows 1.4 units for x = -60 at T = 2; the guard digits absorb it (ResultOK)
+SeriesOK == pc \in {"invert"} \/ (pc = "trim" /\ x.s > 0) => ExpValOK(A, T + 4, out) = OK
 
 RECURSIVE Limbs9(_)
 Limbs9(d) == IF d = <<>> THEN <<>> ELSE <<ToInt(Low(d, 9))>> \o Limbs9(Shr(d, 9))
